@@ -1,5 +1,6 @@
 import PytaskProofs.Lemmas.HashValue
 import PytaskProofs.Lemmas.PathNorm
+import PytaskProofs.Lemmas.StateUPath
 /-!
 # C12 — change detection sees content and identity only and separates different content
 
@@ -555,6 +556,22 @@ theorem C12_pynode_dependency_sep (hlen : ∀ b, (sha b).length = 64) (S : Bytes
   simp only [statePythonNodeOpt, ne_eq, Option.some.injEq]
   intro h
   exact hne (hashValue_inj_aux sha hlen S hS a b hs hw ca cb (render_inj sha hs h))
+
+/-! ## nodes whose path is a protocol `UPath` (`UPath("file://…")`, memory, ssh, …) without an ETag -/
+
+/-- **upath_state_is_file_state.** For a `UPath` whose file system reports no ETag, `_get_state` computes exactly what it
+computes for a local path: the memoised content hash `stateOfFile` (translator fact `Generated.upathNoEtagKind`, read from
+the `UPathStatResult` branch of `nodes._get_state`).  So a `file://` UPath and a plain `Path` to one file have one state. -/
+theorem C12_upath_state_is_file_state (memo : Memo) (p : Str) (mh : Int) (c : Bytes) :
+    upathStateOf sha md5 memo p (some (none, mh, c)) = stateOfFile sha md5 memo p (some (mh, c)) :=
+  upathStateOf_noEtag sha md5 memo p mh c
+
+/-- **upath_state_content.** With a coherent memo that state is the digest of the file's current bytes: a function of
+the bytes alone — a touch does not change it, two files with equal bytes share it, different bytes (no sha collision) differ. -/
+theorem C12_upath_state_content (memo : Memo) (W : World) (hc : MemoCoherent sha md5 memo W)
+    (p : Str) (mh : Int) (c : Bytes) (hp : W p = some (mh, c)) :
+    (upathStateOf sha md5 memo p (some (none, mh, c))).2 = some (sha c) := by
+  rw [upathStateOf_noEtag]; exact stateOfFile_coherent sha md5 memo W hc p mh c hp
 
 /-! ## CPython's `hash(int)` -/
 
